@@ -111,15 +111,16 @@ Theorem C15_legacy_value_error_refuted :
     from_bytes_legacy urlnorm [5; 36; 22; 47; 47; 91]%N = Raise ValueError.
 Proof. exact legacy_value_error_escapes. Qed.
 
-(** AdvertisingDevicesDB.on_device_found, for ALL sequences of advertisements (ADV_IND,
-    ADV_NONCONN_IND, SCAN_RSP, other PDUs; any addresses, any record bytes, any filter /
-    updates setting) from ANY database state: no call raises ("scanning survives any
-    advertisement on the air"). Induction over the sequence on top of C15_parser_total. *)
+(** AdvertisingDevicesDB.on_device_found, for ALL TIMED sequences of advertisements (each
+    event = time elapsed on the clock + ADV_IND / ADV_NONCONN_IND / SCAN_RSP / other PDU;
+    any addresses, any record bytes, any filter / updates setting) from ANY clock value and
+    ANY database state: no call raises ("scanning survives any advertisement on the air").
+    Induction over the sequence on top of C15_parser_total. *)
 Theorem C15_scan_never_raises :
   forall (urlnorm : text -> url_result) (filter : option N) (updates : bool)
-         (evs : list event) (db : list device),
+         (evs : list event) (clock : N) (db : list device),
     Forall (fun ev => wf_bytes (ev_data ev) = true) evs ->
-    exists r, scan urlnorm filter updates db evs = Ok r.
+    exists r, scan urlnorm filter updates clock db evs = Ok r.
 Proof. exact scan_never_raises. Qed.
 
 (** ... and what the database holds for an address is what was parsed: the advertising
@@ -127,17 +128,53 @@ Proof. exact scan_never_raises. Qed.
     the scan-response records (present iff got_scan_rsp) the parse of a SCAN_RSP of that
     address. *)
 Theorem C15_scan_stored_parsed :
-  forall (urlnorm : text -> url_result) (filter : option N) (updates : bool)
-         (evs : list event) (r : list device * list (list N)),
-    scan urlnorm filter updates [] evs = Ok r -> Forall (dev_ok urlnorm evs) (fst r).
+  forall (urlnorm : text -> url_result) (filter : option N) (updates : bool) (clock : N)
+         (evs : list event) (r : list device * list (list N) * list (list N)),
+    scan urlnorm filter updates clock [] evs = Ok r -> Forall (dev_ok urlnorm evs) (fst (fst r)).
 Proof. exact scan_stored_parsed. Qed.
 
 (** Malformed records (AdvDataError / overflow) leave the database untouched. *)
 Theorem C15_scan_malformed_ignored :
-  forall (urlnorm : text -> url_result) (filter : option N) (updates : bool)
+  forall (urlnorm : text -> url_result) (filter : option N) (updates : bool) (now : N)
          (db : list device) (ev : event),
-    parse_adv urlnorm (ev_data ev) = Ok None -> handle urlnorm filter updates db ev = Ok (db, []).
+    parse_adv urlnorm (ev_data ev) = Ok None -> handle urlnorm filter updates now db ev = Ok (db, []).
 Proof. exact malformed_ignored. Qed.
+
+(** What is reported when.  On EVERY call, whatever the event (also a malformed one or a
+    PDU that is ignored), the timeout sweep reports exactly the devices that are [due]
+    once the event has been handled: not reported before, and either scanned (they
+    answered a scan request, or an earlier rssi update already saw the timeout) or created
+    strictly more than 500 ms before this call; all of them are in the returned list, and
+    after the call no device is due any more. *)
+Theorem C15_sweep_reports_due :
+  forall (urlnorm : text -> url_result) (filter : option N) (updates : bool) (now : N)
+         (db : list device) (ev : event) (db2 : list device) (ret ys : list N),
+    on_device_found urlnorm filter updates now db ev = Ok (db2, ret, ys) ->
+    exists db1 app, handle urlnorm filter updates now db ev = Ok (db1, app)
+      /\ ys = map d_addr (List.filter (due now) db1)
+      /\ (forall y, In y ys -> In y ret)
+      /\ forallb (fun d => negb (due now d)) db2 = true.
+Proof. exact sweep_reports_due. Qed.
+
+(** ... and over ANY timed sequence the sweep reports an address AT MOST ONCE (from the
+    empty database; [C15_scan_reports_once_general]: from any database with unique
+    addresses in which the already reported addresses [R] are marked). Together: a device
+    is reported exactly once, by the call that delivers its scan response or by the first
+    call made more than 500 ms after its first advertisement, whichever comes first -
+    provided such a call is made. *)
+Theorem C15_scan_reports_once :
+  forall (urlnorm : text -> url_result) (filter : option N) (updates : bool) (clock : N)
+         (evs : list event) (r : list device * list (list N) * list (list N)),
+    scan urlnorm filter updates clock [] evs = Ok r -> NoDup (concat (snd r)).
+Proof. exact scan_reports_once_from_empty. Qed.
+
+Theorem C15_scan_reports_once_general :
+  forall (urlnorm : text -> url_result) (filter : option N) (updates : bool)
+         (evs : list event) (clock : N) (db : list device) (R : list N)
+         (r : list device * list (list N) * list (list N)),
+    Inv R db -> NoDup R -> scan urlnorm filter updates clock db evs = Ok r ->
+    NoDup (R ++ concat (snd r)).
+Proof. exact scan_reports_once. Qed.
 
 (** Non-vacuity: a concrete list over eight classes (flags, 16-bit UUID list, name, URI,
     appearance, LE role, TX power, LE features) is well formed, fits, and round-trips. *)
